@@ -15,7 +15,9 @@ T = os.path.join(common.REPO, "tests")
 FILES = {"v1": os.path.join(T, "typedef.o"), "v2": os.path.join(T, "enum.o"), "v3": os.path.join(T, "bitcount.o"), "v4": os.path.join(T, "nontrivial-types.o"), "nx": "/nonexistent/file.o", "dir": T, "txt": os.path.join(T, "tests.sh")}
 # queries yield integers/strings only, so that records are fully predictable from library renderings
 QUERIES_NOFILE = ["1", "(1, 2, 3)", "!()", "1 2", '"a" "b" "c"', "1 )", "0x10 0o7 0b1", "(1, 2, drop drop)", "(drop, 1)", '(1, 2) "x" add', "[1, 2] elem hex",
-                  '"%( (1, 2) %)-%s"' , "(1, 2, 3) if ?2 then (swap) else ()", "", "dup", "dup dup", "(|A| A A)", "(|A B| B A)", "type", "(|A| A (1, 2) add)"]
+                  '"%( (1, 2) %)-%s"' , "(1, 2, 3) if ?2 then (swap) else ()", "", "dup", "dup dup", "(|A| A A)", "(|A B| B A)", "type", "(|A| A (1, 2) add)",
+                  # raising depends on the argument: some combinations raise after k results, the ones after them do not
+                  "(|A| (A, A (== 1) drop drop))", "(|A| (A, A, A (== 2) drop drop))", "(|A| (A (== 1) drop drop, A))", '(|A| (A, A (== "p") drop drop))']
 QUERIES_FILE = ["entry offset", "entry ?TAG_typedef offset", "entry ?TAG_base_type name", "!()", "unit offset", "[entry] length", "entry offset (> 0x20)",
                 "entry ?root drop drop", "(|Dw| Dw entry offset)", "entry name", "1 )", "entry @AT_byte_size", "(|Dw| 1)", "entry ?root offset swap drop",
                 "(|Dw| (1, 2))", "entry offset 1 add drop drop drop",
@@ -216,6 +218,7 @@ def expected(d, flags, query, files, args):
     errors = False
     predictable = True
     kinds = {}
+    count_lines = []
     for combo in itertools.product(*dims):         # row-major: first dimension (files) slowest
         inp = ",".join(spec for spec, _ in combo)
         r = d.run(query, inp=inp, fuel=0, max=100000, timeout=120, deep=1)
@@ -252,12 +255,20 @@ def expected(d, flags, query, files, args):
             else:
                 err_must.append("dwgrep: " + header.decode("latin-1") + ":")
             if c:
-                predictable = False    # whether a count is shown for a combination that raised is not specified
+                # whether a count is shown for a combination that raised is not specified: that line is optional,
+                # the lines of all other combinations are still exact
+                count_lines.append(((header + b":" if with_header else b""), None))
         elif c:
             out += (header + b":" if with_header else b"") + str(nres).encode() + b"\n"
+            count_lines.append(((header + b":" if with_header else b""), str(nres).encode()))
     if q:
         return dict(status=1, stdout=b"", err_must=[], err_mustnot=[], why="-q no match")
-    return dict(status=2 if errors else (0 if match else 1), stdout=out if predictable else None, err_must=err_must, err_mustnot=err_mustnot, why="ran", kinds=kinds)
+    loose = None
+    if c and errors:
+        loose, out_exact = count_lines, None
+    else:
+        out_exact = out if predictable else None
+    return dict(status=2 if errors else (0 if match else 1), stdout=out_exact, count_lines=loose, err_must=err_must, err_mustnot=err_mustnot, why="ran", kinds=kinds)
 
 
 def job(payload):
@@ -324,6 +335,25 @@ def job(payload):
                 out["nontrivial"] += 1
             if p.stdout != exp["stdout"]:
                 out["bad"].append(("stdout-differs:%s:%s" % (exp["why"], flagkey(flags)), dict(w, got=p.stdout[:600].decode("latin-1"), want=exp["stdout"][:600].decode("latin-1"))))
+        if exp.get("count_lines") is not None and "-q" not in flags:
+            # -c with some combination that raised: every other combination's count line, in order, exactly
+            got = p.stdout.split(b"\n")
+            if got and got[-1] == b"":
+                got.pop()
+            gi = 0
+            ok = True
+            for pfx, cnt in exp["count_lines"]:
+                if cnt is None:
+                    if gi < len(got) and got[gi].startswith(pfx) and got[gi][len(pfx):].isdigit() and (pfx or len(exp["count_lines"]) == 1):
+                        gi += 1          # shown: any number
+                    continue
+                if gi >= len(got) or got[gi] != pfx + cnt:
+                    ok = False; break
+                gi += 1
+            out["count_lines_compared"] = out.get("count_lines_compared", 0) + 1
+            if not ok or gi != len(got):
+                out["bad"].append(("count-lines-differ-next-to-a-combination-that-raised:%s" % flagkey(flags),
+                                   dict(w, got=p.stdout[:400].decode("latin-1"), want=[(a.decode("latin-1"), b.decode() if b else "(optional)") for a, b in exp["count_lines"]])))
         for m in exp["err_must"]:
             if m not in err:
                 out["bad"].append(("stderr-lacks-diagnostic:%s" % flagkey(flags), dict(w, missing=m, stderr=err[-400:])))
@@ -352,14 +382,14 @@ def run(chk):
         "evaluations": tot.get("n", 0),
         "distinct_nontrivial": tot.get("nontrivial", 0),
         "rule": "one evaluation = one dwgrep invocation whose exit status / stdout / stderr were predicted from library facts; non-trivial = invocations with a non-empty predicted stdout",
-        "stdout_compared_byte_for_byte": tot.get("stdout_compared", 0),
+        "stdout_compared_byte_for_byte": tot.get("stdout_compared", 0), "count_listings_next_to_a_raising_combination_compared": tot.get("count_lines_compared", 0),
         "printed_values_compared_by_type_other_than_int_and_string": {k[5:]: v for k, v in tot.items() if k.startswith("kind_")},
         "invocations_by_expected_status": {k[7:]: v for k, v in tot.items() if k.startswith("status_")},
         "flag_sets": "random subsets of -q -s -c -H -h (32 subsets)", "query_sources": ["-e", "-f", "positional"],
         "queries": len(QUERIES_FILE) + len(QUERIES_NOFILE), "argument_forms": len(ARGS), "file_kinds": sorted(FILES),
         "samples": samples[:6],
     })
-    chk.assumptions += ["the count line of a combination whose execution raised is not judged under -c", "records are predicted for integers, strings, sequences, DIEs, attributes, units, location expressions/operations, address sets and the Dwarf value; ELF symbols and abbreviation values are not rendered by this oracle"]
+    chk.assumptions += ["under -c the count line of a combination whose execution raised is optional and may carry any number; the lines of all other combinations are exact", "records are predicted for integers, strings, sequences, DIEs, attributes, units, location expressions/operations, address sets and the Dwarf value; ELF symbols and abbreviation values are not rendered by this oracle"]
     if tot.get("n", 0) < 500 or tot.get("stdout_compared", 0) < 200:
         chk.inconc("too few invocations")
 
